@@ -342,7 +342,7 @@ def c12_r3(ctx: Ctx, rule):
             if is_self:
                 # allowed only on the no-bundles branch
                 for t in walk_function(fi.node):
-                    if isinstance(t, ast.If) and "_bundles" in norm(t.test) or (isinstance(t, ast.If) and "has_bundles" in norm(t.test)):
+                    if isinstance(t, ast.If) and (ctx.field_named(DOC, "bundles", "_bundles") in norm(t.test) or "has_bundles" in norm(t.test) or "self.bundles" in norm(t.test)):
                         neg = isinstance(t.test, ast.UnaryOp)
                         arm = t.body if neg else t.orelse
                         guarded = guarded or any(x is n for b in arm for x in ast.walk(b))
@@ -747,6 +747,22 @@ for _p, _r, _d in (("C05", "C05.R9", "every supplied attribute reaches the recor
     RULES.setdefault(_p, []).append(Rule(_r, "a parameter that is walked more than once never receives a one-shot iterator", 2, one_shot_rule, "F-PATH", _d))
 
 
+def ufn(ctx, q, keep=()):
+    """The function with the private helpers it delegates to inlined (sa/inline.py); helpers named in `keep` stay calls
+    (the merging helper of unified(): the rules have a summary of it and look for the call)."""
+    from ..inline import inlined_function
+
+    keep = set(keep) | {unified_helper(ctx).rsplit(".", 1)[1]}
+    return inlined_function(ctx, q, exclude=frozenset(keep))
+
+
+def ucfg(ctx, q):
+    k = "ucfg:" + q
+    if k not in ctx._cache:
+        ctx._cache[k] = cfgmod.build(ufn(ctx, q).node)
+    return ctx._cache[k]
+
+
 # ===================================================================================== C08
 def unified_helper(ctx: Ctx):
     q = BUNDLE + "._unified_records"
@@ -841,8 +857,8 @@ def c08_r2(ctx: Ctx, rule):
 def c08_r4(ctx: Ctx, rule):
     res = RuleResult()
     q = DOC + ".unified"
-    fi = ctx.fn(q)
-    g = get_cfg(ctx, q)
+    fi = ufn(ctx, q)
+    g = ucfg(ctx, q)
     loops = [n for n in walk_function(fi.node) if isinstance(n, ast.For) and "bundles" in norm(n.iter)]
     if not loops:
         raise AnalysisError("ProvDocument.unified: no loop over the bundles")
@@ -975,7 +991,7 @@ def c09_r1(ctx: Ctx, rule):
     for loop, adds in loops_adding_records(ctx, q):
         txt = expr_closure_text(fi, loop.iter)
         own = rl in txt or "self.records" in txt or "self.get_records" in txt
-        bundles = "_bundles" in txt or "self.bundles" in txt
+        bundles = ctx.field_named(DOC, "bundles", "_bundles") in txt or "self.bundles" in txt
         res.ob("flattened walks the document's own records (%s) and its bundles' records (%s)" % (own, bundles))
         if not (own and bundles):
             res.fail(rule.id, "flattened-source-incomplete", ctx.loc(q, loop), "flattened() does not walk both the document's own records and all bundles' records", "top-level or bundled records are missing from the flattened document")
@@ -1154,7 +1170,7 @@ def c08_r6(ctx: Ctx, rule):
     from ..mutation import all_assignments
 
     for q in (BUNDLE + ".unified", DOC + ".unified"):
-        fi = ctx.fn(q)
+        fi = ufn(ctx, q)
         sources = []
         for c in calls_in(fi.node):
             for k in c.keywords:
@@ -1340,7 +1356,7 @@ def unified_is_fresh(ctx: Ctx, rule):
     # every bundle goes through unified(): the document-level method calls <bundle>.unified() inside its loop over the bundles
     dq = DOC + ".unified"
     df = ctx.fn(dq)
-    loops = [n for n in walk_function(df.node) if isinstance(n, ast.For) and "bundle" in norm(n.iter)]
+    loops = [n for n in walk_function(ufn(ctx, dq).node) if isinstance(n, ast.For) and "bundle" in norm(n.iter)]
     ok = any(isinstance(c, ast.Call) and call_name(c) == "unified" for l in loops for c in ast.walk(l))
     res.ob("ProvDocument.unified unifies each bundle in its loop over the bundles: %s" % ok)
     if not ok:
